@@ -1,2 +1,60 @@
-/-! Driver for C02 (stub: not built yet). -/
-def main : IO Unit := pure ()
+import Drivers.Proto
+import PymocaVerif.Model.SqliteLock
+/-! Driver for C02.
+    `lock.call`  — one statement call of connection `i` given the lock state of all connections:
+                   outcome (`ok` / `waits` / `fails`) and the caller's new lock state.
+    `prog.check` — for a statement tree (as extracted from the source): `noUpgrade`, number of paths,
+                   and for each given trace (list of statement kinds) whether it is a path of the tree. -/
+open Lean Drivers PymocaVerif.SqliteLock
+
+def stmtOf : String → Except String Stmt
+  | "beginD" => pure .beginD | "beginI" => pure .beginI | "read" => pure .read
+  | "write" => pure .write | "commit" => pure .commit
+  | s => throw s!"bad-stmt {s}"
+
+def lockOf : String → Except String Lock
+  | "none" => pure .none | "shared" => pure .shared | "reserved" => pure .reserved | "pending" => pure .pending
+  | s => throw s!"bad-lock {s}"
+
+def lockName : Lock → String
+  | .none => "none" | .shared => "shared" | .reserved => "reserved" | .pending => "pending"
+
+def connOf (j : Json) : Except String Conn := do
+  pure ⟨0, ← lockOf (← getStr j "lock"), ← getBool j "inTxn", false⟩
+
+def progOf : Nat → Json → Except String Prog
+  | 0, _ => throw "prog-too-deep"
+  | fuel + 1, j => do
+    let a ← j.getArr?
+    let k ← (a[0]?.getD Json.null).getStr?
+    match k with
+    | "skip" => pure .skip
+    | "stmt" => pure (.stmt (← stmtOf (← (a[1]?.getD Json.null).getStr?)) (← (a[2]?.getD Json.null).getBool?))
+    | "seq" => pure (.seq (← progOf fuel (a[1]?.getD Json.null)) (← progOf fuel (a[2]?.getD Json.null)))
+    | "choice" => pure (.choice (← progOf fuel (a[1]?.getD Json.null)) (← progOf fuel (a[2]?.getD Json.null)))
+    | "try" => pure (.try_ (← progOf fuel (a[1]?.getD Json.null)))
+    | k => throw s!"bad-node {k}"
+
+def handle (req : Json) : Except String Json := do
+  let op ← getStr req "op"
+  match op with
+  | "lock.call" => do
+    let conns ← (← getArr req "conns").toList.mapM connOf
+    let i ← getNat req "i"
+    let s ← stmtOf (← getStr req "stmt")
+    let n := conns.length
+    let st : State := fun j => (conns[j]?).getD ⟨0, .none, false, false⟩
+    let pr : Nat → Path := fun j => if j == i then [(s, false)] else []
+    let (st', out) := callN n pr st i
+    let o := match out with | .ok => "ok" | .waits => "waits" | .fails => "fails"
+    pure (Json.mkObj [("ok", true), ("outcome", o), ("lock", lockName (st' i).lock), ("inTxn", (st' i).inTxn)])
+  | "prog.check" => do
+    let prog ← progOf 200 (← getObj req "prog")
+    let traces ← (← getArr req "traces").toList.mapM fun t => do
+      (← t.getArr?).toList.mapM fun k => do stmtOf (← k.getStr?)
+    let ps := (paths prog).map (·.map (·.1))
+    pure (Json.mkObj [("ok", true), ("noUpgrade", noUpgrade prog), ("npaths", ps.length),
+      ("member", Json.arr (traces.map fun t => Json.bool (ps.contains t)).toArray)])
+  | o => throw s!"unknown-op {o}"
+
+def main : IO Unit := serve handle
